@@ -28,6 +28,11 @@ import (
 type eventCh[T any] struct {
 	id int
 	ch chan<- T
+	// closeEventCh is closed by the subscriber's forwarder when it exits, before
+	// it takes the batcher lock to remove itself. execute selects on it so that
+	// a subscriber that has left (with a full buffer nobody drains any more)
+	// cannot block the fan-out, which holds that same lock.
+	closeEventCh chan struct{}
 }
 
 // Batcher is a one to many event batcher. It batches events and sends them to
@@ -84,14 +89,17 @@ func (b *Batcher[K, T]) subscribe(ctx context.Context, ch chan<- T) {
 	id := b.currentID
 	b.currentID++
 	bufferedCh := make(chan T, 50)
+	closeEventCh := make(chan struct{})
 	b.eventChs = append(b.eventChs, &eventCh[T]{
-		id: id,
-		ch: bufferedCh,
+		id:           id,
+		ch:           bufferedCh,
+		closeEventCh: closeEventCh,
 	})
 
 	b.wg.Add(1)
 	go func() {
 		defer func() {
+			close(closeEventCh)
 			verifhook.Point("batcher.forwarder.exit", id)
 			b.lock.Lock()
 			close(ch)
@@ -132,6 +140,7 @@ func (b *Batcher[K, T]) execute(i *item[K, T]) {
 		verifhook.Point("batcher.execute.beforeSend", ev.id)
 		select {
 		case ev.ch <- i.value:
+		case <-ev.closeEventCh:
 		case <-b.closeCh:
 		}
 	}
